@@ -309,7 +309,7 @@ pub fn lookup<const V: u32>(d: &mut Driver<V>, p: &Params, plan: &str, out: &str
             for &sz in sizes {
                 for _ in 0..(1 + d.rng.below(3)) {
                     safepoint();
-                    d.new_object(0, slot % p.nslots, sem, sz, 1, 8, 0, KIND_PLAIN);
+                    d.new_object(0, slot % p.nslots, sem, sz, if sz >= 32 { 1 } else { 0 }, 8, 0, KIND_PLAIN);
                     slot += 1;
                 }
             }
